@@ -803,8 +803,12 @@ impl DbInner {
 				for (c, key_values) in commit.indexed.iter() {
 					key_values.clean_overlay(&mut overlay[*c as usize], old_id);
 				}
-				for (c, iterset) in commit.btree_indexed.iter_mut() {
-					iterset.clean_overlay(&mut overlay[*c as usize].btree_indexed, old_id);
+				for (c, iterset) in commit.btree_indexed.iter() {
+					// The changes are still to be written: keep them.
+					iterset.clean_overlay_keep_changes(
+						&mut overlay[*c as usize].btree_indexed,
+						old_id,
+					);
 				}
 			}
 
